@@ -110,6 +110,9 @@ impl Acc {
         }
         if let Some(a) = &v.aborted {
             *self.aborted.entry(format!("{} @ {}", a.oracle, a.site)).or_default() += 1;
+            if std::env::var_os("JSIM_SHOW_ABORTED").is_some() {
+                eprintln!("ABORTED seed={} {} @ {}: {}", case.seed, a.oracle, a.site, &a.detail[..a.detail.len().min(300)]);
+            }
         }
         if v.skipped.is_some() {
             self.skipped += 1;
